@@ -6,11 +6,15 @@ from vlib.agp import Run
 from vlib.runner import fail, hyp_run
 
 LEVEL = "exploration"
+RULE_EXTRA = (" eps is drawn above and below the cell size; the density is passed as a Python int or as a numpy "
+              "int64/int32 scalar; SolverParameters.startPoint is set in a fifth of the cases (every trial, the first "
+              "included, must lie on the grid).")
 RULE = ("Hypothesis-generated: evolventDensity m in 2..12, N in 2..5, arbitrary box, any objective family, budgets "
         "of 5..100 trials, Solve or DoGlobalIteration; oracle: every evaluated point y satisfies "
         "(y_i-lower_i)/(upper_i-lower_i)*2^m - 1/2 = integer in [0,2^m) within 1e-6 (a centre of the density-m grid "
         "is never a centre of another density, so a solver that ignores the parameter fails at its first trial for "
         "every m != 10). Non-trivial: m != 10 and at least 5 trials. Distinct = distinct case digest.")
+RULE = RULE + RULE_EXTRA
 ASSUMPTIONS = ["grid-membership tolerance 1e-6 cell (the affine map's rounding is below 1e-7 cell inside the "
                "generated box bounds for m<=12)"]
 NONTRIVIAL_FLOOR = {"quick": 300, "thorough": 3000}
